@@ -325,7 +325,8 @@ func init() {
 		}
 		// (d) randomized concurrency: block notifications, peer messages and the payment notification race
 		// on the real RPC watcher (both chains), timings drawn from the seed
-		for i := 0; i < n; i++ {
+		badD := 0 // evaluations of this part that ended in a finding: a few establish it; every further one costs a watchdog
+		for i := 0; i < n && badD < 5; i++ {
 			role := []string{"inSender", "outReceiver"}[r.intn(2)]
 			chain := []string{"btc", "lbtc"}[r.intn(2)]
 			w := newWorld(defaultCfg())
@@ -379,6 +380,7 @@ func init() {
 			res.Distinct++
 			in := map[string]interface{}{"role": role, "chain": chain, "message": msg, "confirmations_at_start": nearMature, "delays_ms": []int64{int64(d1 / time.Millisecond), int64(d2 / time.Millisecond)}}
 			if !ok {
+				badD++
 				res.addFinding("C18/"+role+"/handlers-block-each-other/random-schedule", "concurrent block and message handlers did not all return within the watchdog", in)
 				continue
 			}
@@ -388,6 +390,7 @@ func init() {
 			}
 			res.Histogram["(d) final "+a.state()]++
 			if !finishedState(a.state()) && msg != "txmsg" && msg != "cancel from=third" {
+				badD++
 				res.addFinding("C18/"+role+"/not-finished/random-schedule", "all handlers returned but the swap did not finish: "+a.state(), in)
 			}
 			w.close()
